@@ -329,7 +329,9 @@ class CmdParse(object):
             if this.type is bool:
                 params[this.name] = not inverse
             elif this.type is list:
-                params[this.name].append(val)
+                # create a new list, the current value might be the
+                # option's default object. Assign to mark as non-default.
+                params[this.name] = params[this.name] + [val]
             else:
                 params[this.name] = this.str2type(val)
 
